@@ -76,4 +76,17 @@ theorem stack_discipline :
     SlipVerif.Gen.C09Sharp.startsShrinkOutsideClose = 0 ∧ SlipVerif.Gen.C09Sharp.closeGuardsEmpty = true := by
   decide
 
+/-- every `c.args[c.argPos]` of control.go is reached only after both bounds of the cursor were
+    checked in the same function (nextArg and the `~:@{` loop) -/
+theorem cursor_guards_ok : cursorGuards.checksLow = true ∧ cursorGuards.checksHigh = true ∧
+    1 ≤ SlipVerif.Gen.C09Format.argIndexSites := by decide
+
+open SlipVerif.ReaderStack in
+/-- argument cursor totality with the guards of the current sources: no sequence of argument
+    consuming directives and `~*` moves indexes c.args out of range -/
+theorem cursor_run_total_now (len : Nat) (ops : List CurOp) (k : Nat) :
+    runCursor cursorGuards len 0 0 [] ops ≠ .fault k :=
+  (SlipVerif.Theorems.C09Stack.cursor_run_total cursorGuards cursor_guards_ok.1 cursor_guards_ok.2.1 len ops 0 0 []
+    (Int.le_refl 0) (Int.natCast_nonneg _) nofun).1 k
+
 end SlipVerif.Theorems.GenC09
